@@ -182,6 +182,10 @@ class Tree:
                 nodes.append([i, 'f', n['dev'], n['mtime'], n['size'], n['data']])
             else:
                 nodes.append([i, 's', n['dev'], n['kind'], 0])
+        # what lies above the tree root: an empty directory (inode 0), so that '..' from the root finds nothing
+        if 0 not in self.nodes:
+            nodes = [[0, 'd', self.nodes[self.root]['dev'], 0, []]] + [
+                ([n[0], 'd', n[2], 0, n[4]] if (n[0] == self.root and n[1] == 'd' and n[3] == self.root) else n) for n in nodes]
         return [self.root, nodes, [[p, i, e] for p, i, e in faults], AVAIL]
 
     # ---- realisation ----
